@@ -302,7 +302,7 @@ impl<'a> Gen<'a> {
                 if self.cfg.event_then && flags.then_depth < 2 { 2 } else { 0 }, // 4 EmitThen
                 4,                                                     // 5 Notify
                 if spawn_ok { 6 } else { 0 },                          // 6 Spawn
-                if joinable.is_empty() { 0 } else { 5 },               // 7 Join
+                if joinable.is_empty() { 0 } else if handles.iter().any(|h| h.aborted && !h.aborted_lazily) { 14 } else { 5 }, // 7 Join
                 if task_abort && !abort_immediate.is_empty() { 4 } else { 0 }, // 8 Abort (immediate)
                 if task_abort && !abort_lazy.is_empty() { 3 } else { 0 }, // 9 Abort (lazy)
                 3,                                                     // 10 JoinAll
